@@ -1174,6 +1174,104 @@ func runDeleteBeforeAdd(sc sweepScenario) sweepResult {
 	return res
 }
 
+// runSweepWhileWriterParked (op swp.x): an entry has expired and is not yet removed; a writer replaces it and is parked between its table
+// computation and the publication of its event (hooks set.afterCompute / cmp.afterCompute); a maintenance run fires the dead node's timer -
+// the node is no longer mapped, so that run reports nothing - and only then the writer's event is replayed.  The replaced value (11) must
+// still reach OnDeletion, exactly once, with cause Expiration (C13: "its Expiration event has been delivered"; C06).
+func runSweepWhileWriterParked(sc sweepScenario) sweepResult {
+	res := sweepResult{T: "sweep", Sc: sc, TickNs: 1 << 30, NoPressure: 1}
+	clk := &stallClock{never: make(chan time.Time), stalled: make(chan struct{}), resume: make(chan struct{})}
+	clk.now.Store(int64(5) << 30)
+	var mu sync.Mutex
+	n11 := 0
+	o := &Options[int, int]{
+		Clock:            clk,
+		ExpiryCalculator: ExpiryWriting[int, int](time.Duration(sc.TTL)),
+		OnDeletion: func(e DeletionEvent[int, int]) {
+			if e.Key != 1 {
+				return
+			}
+			mu.Lock()
+			if e.Value == 11 {
+				n11++
+				res.AsyncCause = e.Cause.String()
+			}
+			if e.Cause == CauseExpiration {
+				res.Expired++
+			} else {
+				res.Other++
+			}
+			mu.Unlock()
+		},
+	}
+	if sc.Sized == 1 {
+		o.MaximumSize = 100
+	}
+	if sc.SyncExec == 1 {
+		o.Executor = func(fn func()) { fn() }
+	}
+	c := Must(o)
+	defer c.StopAllGoroutines()
+	c.Set(1, 11)
+	c.CleanUp()
+	time.Sleep(2 * time.Millisecond)
+	clk.now.Add(sc.TTL + sc.Jump) // the deadline has passed, no maintenance run yet
+	parked, resume := make(chan struct{}), make(chan struct{})
+	var gid atomic.Uint64
+	var once sync.Once
+	verifhookInstall(func(id string, v uint64) {
+		if (id == "set.afterCompute" || id == "cmp.afterCompute") && verifkit.GoID() == gid.Load() {
+			once.Do(func() {
+				close(parked)
+				<-resume
+			})
+		}
+	})
+	defer verifhookInstall(nil)
+	done := make(chan struct{})
+	go func() {
+		defer close(done)
+		gid.Store(verifkit.GoID())
+		if sc.Op == "swp.compute" {
+			c.Compute(1, func(old int, found bool) (int, ComputeOp) { return 99, WriteOp })
+		} else {
+			c.Set(1, 99)
+		}
+	}()
+	select {
+	case <-parked:
+		res.Gated = 1
+	case <-done:
+	case <-time.After(3 * time.Second):
+		res.Hang = 1
+		return res
+	}
+	c.CleanUp() // fires the timer of the replaced, dead node
+	time.Sleep(2 * time.Millisecond)
+	close(resume)
+	select {
+	case <-done:
+	case <-time.After(3 * time.Second):
+		res.Hang = 1
+		return res
+	}
+	time.Sleep(2 * time.Millisecond)
+	c.CleanUp()
+	time.Sleep(2 * time.Millisecond)
+	c.CleanUp()
+	time.Sleep(2 * time.Millisecond)
+	mu.Lock()
+	res.MassN, res.MassExpired = 0, n11 // (MassExpired reused: number of OnDeletion events for the replaced value)
+	mu.Unlock()
+	res.EstMid = c.EstimatedSize()
+	for range c.All() {
+		res.Live++
+	}
+	mu.Lock()
+	defer mu.Unlock()
+	return res
+}
+
 type sweepResult struct {
 	T       string        `json:"t"`
 	Sc      sweepScenario `json:"sc"`
@@ -1307,6 +1405,10 @@ func TestVerifSweep(t *testing.T) {
 	defer w.Flush()
 	enc := json.NewEncoder(w)
 	for _, sc := range scs {
+		if len(sc.Op) > 4 && sc.Op[:4] == "swp." {
+			_ = enc.Encode(runSweepWhileWriterParked(sc))
+			continue
+		}
 		if len(sc.Op) > 4 && sc.Op[:4] == "ord." {
 			_ = enc.Encode(runDeleteBeforeAdd(sc))
 			continue
